@@ -28,8 +28,8 @@ Definition prefix_commands (st : cstate) (command : string) : string :=
   join " && " (pre ++ [command]).
 
 (** The command string of [Context._sudo]: [user] is the effective user
-    ([kwargs.pop("user", config.sudo.user)]), [env_kw] the [env] KEYWORD ARGUMENT
-    only ([kwargs.get("env", {})]) -- configured [run.env] is not consulted. *)
+    ([kwargs.pop("user", config.sudo.user)]), [env] the effective env option
+    ([kwargs.get("env")], or [config.run.env] when that is None -- fix c2a3b37). *)
 Definition user_flags (user : oval) : string :=
   match user with
   | ONone => ""
@@ -43,11 +43,8 @@ Definition env_flags (e : oval) : string :=
   | _ => ""
   end.
 
-Definition sudo_command (prompt : string) (user : oval) (env_kw : option oval)
-           (prefixed : string) : string :=
-  ("sudo -S -p '" ++ prompt ++ "' "
-   ++ env_flags (match env_kw with Some e => e | None => ODict [] end)
-   ++ user_flags user ++ prefixed)%string.
+Definition sudo_command (prompt : string) (user env : oval) (prefixed : string) : string :=
+  ("sudo -S -p '" ++ prompt ++ "' " ++ env_flags env ++ user_flags user ++ prefixed)%string.
 
 Definition push (b : block) (st : cstate) : cstate :=
   match b with
@@ -73,8 +70,12 @@ Definition do_run (cc : ctxcfg) (st : cstate) (cmd : string) : call :=
 Definition do_sudo (cc : ctxcfg) (st : cstate) (cmd : string)
            (user_kw env_kw : option oval) : call :=
   let user := match user_kw with Some u => u | None => cc_user cc end in
+  let env := match env_kw with
+             | Some ONone | None => cfg_run (cc_run cc) Env
+             | Some e => e
+             end in
   o_started (run_model (cc_run cc) (cc_parent cc)
-                       (sudo_command (cc_prompt cc) user env_kw (prefix_commands st cmd))
+                       (sudo_command (cc_prompt cc) user env (prefix_commands st cmd))
                        (env_kwargs env_kw)).
 
 (** (state afterwards, calls made, an exception is propagating) *)
